@@ -62,7 +62,7 @@ def shape_of(term: str, ell: tuple[int, ...] = ELL) -> tuple[int, ...]:
             out += list(ell)
             i += 3
         else:
-            out.append(SIZES[term[i]])
+            out.append(SIZES[term[i].lower()])
             i += 1
     return tuple(out)
 
@@ -82,6 +82,12 @@ def predicate(subs: str) -> bool:
 
 
 def one(subs: str, rng: Any, per_leaf: bool, ell: tuple[int, ...] = ELL, ell_blocks: tuple[int, ...] | None = None) -> None:
+    if sum(map(ord, subs)) % 7 == 3:
+        # einsum labels may be upper-case letters too
+        up = [c for c in 'ijkh' if c in subs][sum(map(ord, subs)) % max(1, len([c for c in 'ijkh' if c in subs]))] if any(c in subs for c in 'ijkh') else None
+        if up:
+            subs = subs.replace(up, up.upper())
+            LOG.count('C14.strings', 'upper-case-label')
     left, rest = subs.split(',')
     right, result = rest.split('->')
     # the ellipsis of the block term may stand for fewer axes than the one of the leaf (NumPy broadcasting)
